@@ -7,8 +7,7 @@ from sa.idioms import reach_under, path_under, combine, attr_truth
 from sa.project import dotted, walk_local
 from rules.common import mutator_nodes
 
-EXPLANATION = (
-    "Exclusive-slot discipline decided on the decorator's CFG and the call "
+EXPLANATION = (    "Exclusive-slot discipline decided on the decorator's CFG and the call "
     "graph: R1 in util.synchronized's wrapper both refusals precede the "
     "acquire, and from the acquire every way out (return or exception) passes "
     "either the release or the registration of the releasing done-callback; "
@@ -21,7 +20,9 @@ EXPLANATION = (
     "reachable from the body of another; R5 no command wraps its synchronized "
     "call in a handler that would swallow the ConflictError, and dispatch maps "
     "it to COMMAND_ERROR; R6 Arbiter.start clears _restarting before starting "
-    "watchers. Decides these necessary conditions, not that every operation's "
+    "watchers."
+    "R1 also requires that a refusal path never passes a release; R7 (shared with C02 R3) no kill/stop coroutine is started and dropped inside an exclusive operation. "
+    "Decides these necessary conditions, not that every operation's "
     "future completes.")
 ASSUMPTIONS = ["kill and signal are non-exclusive by the property's own text"]
 
